@@ -13,7 +13,7 @@ use geodesy::authoring::*;
 /// Domains: "geo" = radians over (and a little beyond) the coverage of the shipped test grids,
 /// "cart" = the same places as cartesian coordinates, "deg" = the same in degrees, latitude first,
 /// "any" = anything
-const EXTRA: [(&str, bool, &str); 19] = [
+const EXTRA: [(&str, bool, &str); 21] = [
     ("gridshift grids=test.datum", true, "geo"),
     ("gridshift grids=test.geoid", true, "geo"),
     ("gridshift grids=5458_with_subgrid.gsb", true, "geo"),
@@ -33,6 +33,8 @@ const EXTRA: [(&str, bool, &str); 19] = [
     ("stack push=1,2,3 | stack roll=3,1 | stack flip=2 | stack pop=3,2,1 | cart | helmert x=10 rx=1 convention=position_vector t_epoch=2000 dx=0.1 | cart inv", false, "geo"),
     ("cart | deformation grids=test.deformation t_epoch=2000 | cart inv", false, "geo"),
     ("stack push=3 | gridshift grids=test.datum | stack pop=3", false, "geo"),
+    ("stack push=1 | stack pop=1,2", false, "any"),
+    ("addone | stack push=1,2 | addone", false, "any"),
 ];
 
 fn gen_set(rng: &mut Rng, inst: Option<&catalog::Inst>, domain: &str, len: usize, epochs: &[f64]) -> Vec<[f64; 4]> {
@@ -98,6 +100,10 @@ pub fn run(h: &H) {
     let n = h.budget(4_000, 400_000);
     for idx in h.cases(n) {
         let mut rng = h.rng(idx);
+        if idx % 16 == 15 {
+            h.guard(idx, "sets over lists of overlapping harness-built grids", || grid_sets(h, idx, &mut rng));
+            continue;
+        }
         // choose the operator
         let kind = idx % 4;
         let mut domain = "any";
@@ -136,6 +142,108 @@ pub fn run(h: &H) {
             }
         };
         h.guard(idx, &def, || one(h, idx, &def, inst.as_ref(), domain, elementary, &epochs, &mut rng));
+    }
+}
+
+/// gridshift / deformation over two or three overlapping grids with clearly different values
+/// (served by `GridCtx`): a set scattered over all of them, their overlaps, margins and the
+/// outside, against every member alone and against the set in reverse order, both directions
+fn grid_sets(h: &H, idx: u64, rng: &mut Rng) {
+    use crate::gridgen::{GridCtx, GridSpec, D2R};
+    use std::sync::Arc;
+    let bands = 1 + rng.below(3);
+    let n = 2 + rng.below(2);
+    let base = loop {
+        let s = GridSpec::random(rng, bands, false);
+        if s.lon_e < 165.0 && s.lon_w > -165.0 && s.lat_n < 80.0 && s.lat_s > -80.0 {
+            break s;
+        }
+    };
+    let ext = ["geoid", "datum", "deformation"][bands - 1];
+    let mut ctx = GridCtx::new();
+    let mut names = Vec::new();
+    let mut models = Vec::new();
+    for k in 0..n {
+        let mut s = if k == 0 { base.clone() } else { GridSpec::random(rng, bands, false) };
+        if k > 0 {
+            s.dlat = base.dlat;
+            s.dlon = base.dlon;
+            s.lat_s = base.lat_s + base.dlat * 0.5 * rng.int(-5, 5) as f64;
+            s.lon_w = base.lon_w + base.dlon * 0.5 * rng.int(-5, 5) as f64;
+            s.lat_n = s.lat_s + s.dlat * (s.rows - 1) as f64;
+            s.lon_e = s.lon_w + s.dlon * (s.cols - 1) as f64;
+            for x in s.values.iter_mut() {
+                *x += 100.0 * k as f32;
+            }
+            if !(s.lon_e < 175.0 && s.lon_w > -175.0 && s.lat_n < 85.0 && s.lat_s > -85.0) {
+                return;
+            }
+        }
+        let Ok(g) = BaseGrid::gravsoft(s.gravsoft(rng).as_bytes()) else { return };
+        let name = format!("s{k}.{ext}");
+        ctx.grids.insert(name.clone(), Arc::new(g));
+        names.push(name);
+        models.push(s.model());
+    }
+    if rng.chance(0.3) {
+        names.push("@null".into());
+    }
+    let def = match bands {
+        3 if rng.chance(0.5) => format!("deformation grids={} dt=12.5", names.join(",")),
+        3 => format!("deformation grids={} t_epoch=2001.5", names.join(",")),
+        _ => format!("gridshift grids={}", names.join(",")),
+    };
+    let Ok(op) = ctx.op(&def) else {
+        h.violation(idx, "C02/instantiation-failed", J::obj().set("definition", &def));
+        return;
+    };
+    h.class(&format!("grid-lists/{ext}/{n}-grids"));
+    let e = Ellipsoid::default();
+    let len = 6 + rng.below(12);
+    let mut set: Vec<[f64; 4]> = Vec::with_capacity(len);
+    for _ in 0..len {
+        let m = &models[rng.below(n)];
+        let lon = m.lon_w + rng.range(-0.3, 1.3) * (m.lon_e - m.lon_w);
+        let lat = m.lat_s + rng.range(-0.3, 1.3) * (m.lat_n - m.lat_s);
+        if lon.abs() > 179.0 * D2R || lat.abs() > 89.0 * D2R {
+            continue;
+        }
+        let t = *rng.pick(&[2001.5, 2010.0, 1995.25, 2030.0]);
+        set.push(if bands == 3 {
+            let c = e.cartesian(&Coor4D([lon, lat, rng.range(0.0, 300.0), 0.0]));
+            [c[0], c[1], c[2], t]
+        } else {
+            [lon, lat, rng.range(0.0, 300.0), t]
+        });
+    }
+    if set.len() < 2 {
+        return;
+    }
+    h.distinct(mix(hash_str(&def), set.iter().fold(0, |a, p| mix(a, hash_f64s(p)))));
+    for d in [D::F, D::I] {
+        let mut batch = to_c4(&set);
+        let cb = apply_set(&ctx, op, d, &mut batch);
+        let mut rev: Vec<Coor4D> = to_c4(&set).into_iter().rev().collect();
+        let cr = apply_set(&ctx, op, d, &mut rev);
+        rev.reverse();
+        let mut sum = 0;
+        for (i, p) in set.iter().enumerate() {
+            let (alone, c1) = apply1(&ctx, op, d, *p);
+            sum += c1;
+            h.eval(2);
+            if !same_bits(&batch[i].0, &alone) {
+                report(h, idx, "single-vs-batch", "grid-list", d.name(), &def, &set, i, &batch[i].0, &alone);
+                return;
+            }
+            if !same_bits(&batch[i].0, &rev[i].0) {
+                report(h, idx, "permuted-vs-batch", "grid-list", d.name(), &def, &set, i, &batch[i].0, &rev[i].0);
+                return;
+            }
+        }
+        if cb != sum || cr != sum {
+            h.violation(idx, &format!("C02/count-of-whole-differs-from-sum-of-parts/grid-list/{}", d.name()), J::obj().set("definition", &def).set("whole", cb).set("reversed", cr).set("sum_of_singles", sum));
+            return;
+        }
     }
 }
 
